@@ -257,6 +257,9 @@ struct Final {
     pending: usize,
     flush_in_progress: bool,
     env_stalled: bool,
+    /// 0 = wall-clock latencies are not judged (Miri); else the longest tolerated time a committer may
+    /// spend inside submit_and_wait while no flush is in progress (60% of the shortened wait timeout)
+    idle_wait_limit_us: u64,
 }
 
 fn check(evs: &[E], writes: &[W], fin: &Final, round: u64, params: &str) -> Checked {
@@ -412,6 +415,59 @@ fn check(evs: &[E], writes: &[W], fin: &Final, round: u64, params: &str) -> Chec
             }
         }
     }
+    // lost wake-up: the wait loop re-checks completion after its timed wait, so a missed notification shows
+    // as a committer that sat in submit_and_wait for (nearly) the whole timeout although no flush was in
+    // progress for most of that time, not as an error
+    if fin.idle_wait_limit_us > 0 && !fin.env_stalled {
+        let mut call_us: HashMap<u64, u64> = HashMap::new();
+        let mut take_us: HashMap<u64, u64> = HashMap::new();
+        let mut flushes: Vec<(u64, u64)> = vec![];
+        for e in evs {
+            match &e.ev {
+                Ev::Call => {
+                    call_us.insert(e.p, e.us);
+                }
+                Ev::Take { .. } => {
+                    take_us.insert(e.p, e.us);
+                }
+                Ev::BatchDone { .. } => {
+                    if let Some(t) = take_us.get(&e.p) {
+                        flushes.push((*t, e.us));
+                    }
+                }
+                _ => {}
+            }
+        }
+        flushes.sort();
+        for e in evs {
+            let Ev::SubmitRet { .. } = &e.ev else { continue };
+            let Some(&c0) = call_us.get(&e.p) else { continue };
+            let total = e.us.saturating_sub(c0);
+            if total <= fin.idle_wait_limit_us {
+                continue;
+            }
+            // time inside [call, return] covered by somebody's take..complete interval
+            let mut covered = 0u64;
+            let mut cur = c0;
+            for &(a, b) in &flushes {
+                let (a, b) = (a.max(cur), b.min(e.us));
+                if b > a {
+                    covered += b - a;
+                    cur = b;
+                }
+            }
+            let idle = total.saturating_sub(covered);
+            if idle > fin.idle_wait_limit_us {
+                ck.bump("committers_that_slept_while_no_flush_was_in_progress", 1);
+                let takers = taken_by.get(&e.p).cloned().unwrap_or_default();
+                ck.viol(
+                    "no_stuck",
+                    "C37/no_stuck/committer_slept_in_submit_and_wait_while_no_flush_was_in_progress",
+                    json!({"payload": e.p, "time_in_submit_and_wait_ms": total / 1000, "of_which_no_flush_in_progress_ms": idle / 1000, "limit_ms": fin.idle_wait_limit_us / 1000, "witness": witness(evs, writes, e.p, takers.first().map(|x| x.1)), "round": round, "params": params}),
+                );
+            }
+        }
+    }
     ck.bump("timeouts", timeouts);
     if fin.env_stalled && timeouts > 0 {
         ck.bump("rounds_with_timeouts_not_judged_environment_stalled", 1);
@@ -459,7 +515,8 @@ fn finish_round(q: &GroupCommitQueue, outs: Vec<ThreadOut>, log: Vec<W>, sh: &sc
     }
     evs.sort_by_key(|e| e.seq);
     let (pending, fip) = q.verif_state();
-    let fin = Final { pending, flush_in_progress: fip, env_stalled: sched::stalls() != stalls0 };
+    let to = turdb::verif::group_commit_timeout_ms();
+    let fin = Final { pending, flush_in_progress: fip, env_stalled: sched::stalls() != stalls0, idle_wait_limit_us: if cfg!(miri) { 0 } else { to * 600 } };
     let mut ck = check(&evs, &log, &fin, round, &params);
     for v in viols {
         ck.viol(v.assertion, &v.sig.clone(), v.detail);
@@ -513,6 +570,10 @@ fn run_round(seed: u64, round: u64, quick: bool) -> RoundOut {
                     sched::enter(rd.sh, t, seed, round);
                     barrier.wait();
                     for i in 0..commits {
+                        // a stuck queue costs one wait timeout per commit: two are enough evidence for a round
+                        if out.evs.iter().filter(|e| matches!(e.ev, Ev::SubmitRet { timeout: true, .. })).count() >= 2 {
+                            break;
+                        }
                         for _ in 0..rng.below(think + 1) {
                             sched::point("h.think");
                         }
@@ -666,6 +727,32 @@ struct Agg {
     rounds_reproducing: u64,
 }
 
+impl Agg {
+    fn absorb(&mut self, o: Agg) {
+        for (k, v) in o.c {
+            *self.c.entry(k).or_insert(0) += v;
+        }
+        for (k, v) in o.viol_sig_counts {
+            *self.viol_sig_counts.entry(k).or_insert(0) += v;
+        }
+        for v in o.viols {
+            let have = self.viols.iter().filter(|x| x.sig == v.sig).count();
+            if have < 2 && self.viols.len() < 48 {
+                self.viols.push(v);
+            }
+        }
+        self.fps.extend(o.fps);
+        self.nontrivial.extend(o.nontrivial);
+        self.strata.extend(o.strata);
+        self.samples.extend(o.samples);
+        for (n, c) in o.points {
+            *self.points.entry(n).or_insert(0) += c;
+        }
+        self.trivial_rounds += o.trivial_rounds;
+        self.rounds_reproducing += o.rounds_reproducing;
+    }
+}
+
 fn merge(g: &mut Agg, r: RoundOut) {
     for (k, v) in r.ck.c {
         *g.c.entry(k).or_insert(0) += v;
@@ -726,10 +813,14 @@ pub fn run(a: &Args) -> i32 {
     }
     ctx.extra.insert("directed_rounds".into(), json!(directed_repro));
     let cores = std::thread::available_parallelism().map(|n| n.get()).unwrap_or(4);
-    let (lanes, rounds, budget_s) = if miri { (1usize, 3u64, 3600u64) } else if quick { ((cores / 4).clamp(1, 4), 1500u64, 34u64) } else { ((cores / 3).clamp(1, 6), 150_000u64, 400u64) };
+    let (lanes, rounds, budget_s) = if miri { (1usize, 3u64, 3600u64) } else if quick { ((cores / 4).clamp(1, 4), 10_000u64, 34u64) } else { ((cores / 3).clamp(1, 6), 600_000u64, 400u64) };
     let deadline = Instant::now() + Duration::from_secs(budget_s);
     let seed = a.seed;
-    let (agg, done, hit) = sched::run_lanes(lanes, rounds, deadline, agg, |i| run_round(seed, i, quick), |g: &mut Agg, _i, r: RoundOut| merge(g, r));
+    let (agg2, done, hit, hung): (Agg, u64, bool, Option<u64>) = sched::run_lanes(lanes, rounds, deadline, Duration::from_secs(120), move |i| run_round(seed, i, quick), |g: &mut Agg, _i, r: RoundOut| merge(g, r));
+    agg.absorb(agg2);
+    if let Some(r) = hung {
+        ctx.inconclusive(&format!("watchdog: round {} did not finish within 120 s although every wait in the queue is bounded by the (shortened) timeout; verdict covers the {} rounds completed before", r, done));
+    }
     sched::stop_heartbeat(hb);
     turdb::verif::set_group_commit_timeout_ms(0);
     ctx.evals(done);
@@ -759,6 +850,7 @@ pub fn run(a: &Args) -> i32 {
     ctx.extra.insert("group_commit_wait_timeout_override_ms".into(), json!(timeout_ms));
     ctx.assumptions.push("'told it succeeded' = the emulated execute_small_commit returns Ok (after its own take_pending/flush/complete step), exactly as transaction.rs does; the WAL is a harness log, so WAL I/O itself is not part of this check".into());
     ctx.assumptions.push("ordering is judged by a global sequence counter: a return event is stamped after the call returned and a write event while the log mutex is held, so 'write seq > Ok-return seq' proves the write happened after the return".into());
+    ctx.assumptions.push("lost wake-ups are judged by wall clock: a committer that spends more than 60% of the (shortened, 2.5 s) wait timeout inside submit_and_wait while no take..complete interval of any thread is open; skipped when the harness heartbeat saw a scheduler stall (>150 ms oversleep) during the round, and under Miri".into());
     ctx.assumptions.push("a 'group commit timeout' (override 2.5 s) is judged only when the harness heartbeat saw no scheduler stall in that round, and only if the event list shows that nobody had taken the commit (or its batch had already completed)".into());
     ctx.assumptions.push("interleavings are sampled by perturbation (plus two directed schedules), not enumerated".into());
     ctx.exhaustive = Some(false);
